@@ -1,0 +1,48 @@
+//go:build verif
+
+// Contracts for package protocol, checked by /verif/cmd/nsqvc (comment-only file).
+
+package protocol
+
+// dec(a, off, n): the number written by the n decimal digits a[off..off+n).
+// Recursive spec function with fuel (one unfolding per mention), so the axioms cannot loop.
+//@ fn fuel0() int
+//@ fn fS(f int) int
+//@ fn decF(f int, a seq[byte], off int, n int) int
+//@ fn dec(a seq[byte], off int, n int) int := decF(fS(fuel0()), a, off, n)
+//@ axiom dec_syn: forall f int, a seq[byte], off int, n int :: {decF(fS(f), a, off, n)}
+//@      decF(fS(f), a, off, n) == decF(f, a, off, n)
+//@ axiom dec_zero: forall f int, a seq[byte], off int :: {decF(f, a, off, 0)} decF(f, a, off, 0) == 0
+//@ axiom dec_step: forall f int, a seq[byte], off int, n int :: {decF(fS(f), a, off, n)}
+//@      n > 0 ==> decF(fS(f), a, off, n) == 10*decF(f, a, off, n-1) + (a[off+n-1] - 48)
+
+// A digit string is at least its own prefix followed by one more digit: used to show that an
+// overflow detected at digit i means the whole number does not fit. Proved by induction on m:
+// the base case and the step are lemma obligations; the quantified statement is then used as an axiom.
+//@ pred ge48(a seq[byte], off int, lo int, hi int) := forall k int :: {a[off+k]} lo <= k && k < hi ==> 48 <= a[off+k]
+//@ lemma dec_prefix_base: forall a seq[byte], off int, i int ::
+//@      0 <= i && ge48(a, off, i, i+1) && dec(a, off, i) >= 0 ==> dec(a, off, i+1) >= 10*dec(a, off, i) + a[off+i] - 48
+//@   props C04 C09 C03
+//@ lemma dec_prefix_step: forall a seq[byte], off int, i int, m int ::
+//@      0 <= i && i < m && ge48(a, off, i, m+1) && dec(a, off, i) >= 0 &&
+//@      (ge48(a, off, i, m) ==> dec(a, off, m) >= 10*dec(a, off, i) + a[off+i] - 48)
+//@      ==> dec(a, off, m+1) >= 10*dec(a, off, i) + a[off+i] - 48
+//@   props C04 C09 C03
+//@ axiom[optin] dec_prefix: forall a seq[byte], off int, i int, m int :: {dec(a, off, i), dec(a, off, m)}
+//@      0 <= i && i < m && ge48(a, off, i, m) && dec(a, off, i) >= 0 ==> dec(a, off, m) >= 10*dec(a, off, i) + a[off+i] - 48
+
+//@ pred digits(b []byte, n int) := forall k int :: {b[k]} 0 <= k && k < n ==> 48 <= b[k] && b[k] <= 57
+
+//@ func ByteToBase10(b []byte) (n uint64, err error)
+//@   props C04 C09 C03
+//@   ensures[value] err == nil ==> n == dec(arr(b), off(b), len(b))
+//@   ensures[digits] err == nil ==> digits(b, len(b))
+//@   ensures[accept; uses dec_prefix(arr(b), off(b), i, len(b))] digits(b, len(b)) && dec(arr(b), off(b), len(b)) < 18446744073709551616 ==> err == nil
+//@   ensures[zero-on-error] err != nil ==> n == 0
+//@   modifies
+//@   loop 0
+//@     invariant[range] 0 <= i && i <= len(b)
+//@     invariant[digits] digits(b, i)
+//@     invariant[value] n == dec(arr(b), off(b), i)
+//@     invariant[err] err == nil
+//@     decreases len(b) - i
